@@ -34,7 +34,15 @@ func runC19(c *Ctx) {
 		return strings.HasPrefix(k, "Update-") || strings.HasPrefix(k, "helper-forwards:walletdb.Update")
 	})
 	c.Borrow(runC10, "C10-R1", "C19-R2", func(k string) bool {
-		return strings.Contains(k, "SetVersion") || strings.Contains(k, "putManagerVersion") || strings.Contains(k, "putVersion")
+		if strings.Contains(k, "SetVersion") || strings.Contains(k, "putManagerVersion") || strings.Contains(k, "putVersion") {
+			return true
+		}
+		// ... and by everything a migration runs: a step that swallows a failed write lets the driver record the version
+		fnPart := k
+		if i := strings.IndexByte(k, '!'); i >= 0 {
+			fnPart = k[:i]
+		}
+		return migrationReach(c.P)[fnPart]
 	})
 	up := c.P.Func("walletdb/migration", "", "upgrade")
 	vta := c.P.Func("walletdb/migration", "", "VersionsToApply")
@@ -961,4 +969,22 @@ func checkUpgradeStopsAtFirstFailure(c *Ctx, rule string) {
 		}
 	}
 	c.Floor(rule, "manager loops in migration.Upgrade", n, 1)
+}
+
+// migrationReach: printed names of the functions reachable (inside the repository) from the migration functions — the
+// functions of the managers' migrations files.
+func migrationReach(p *Program) map[string]bool {
+	out := map[string]bool{}
+	for _, fn := range p.RepoFuncs {
+		if fn.Parent() != nil || !strings.HasSuffix(p.Fset.Position(fn.Pos()).Filename, "migrations.go") {
+			continue
+		}
+		out[fnName(fn)] = true
+		for g := range p.reachSet(fn) {
+			if p.all[g] {
+				out[fnName(g)] = true
+			}
+		}
+	}
+	return out
 }
